@@ -221,6 +221,7 @@ package system
 //@ lib net.Interfaces() (ifis, err)
 //@   ensures I1: forall(k, 0, len(ifis), 0 < ifis[k].Index && ifis[k].Index <= 2147483647)
 //@ func (*addresser).LoopbackRoutes
+//@   opt nobreak [C15]
 //@   ghost local failed Bool
 //@   requires P1: a != nil && a.execute != nil
 //@   opt preserves heap(system.addresser), mem(net.Interface)
